@@ -184,17 +184,17 @@ def main(tier):
     prog = H.get_program()
     rng = H.rng(PROP)
     findings = H.load_known_findings(PROP)
-    ps = [1, 2] if tier == 'quick' else [1, 2, 3, 4, 5, 16]
+    ps = [1, 2, 3] if tier == 'quick' else [1, 2, 3, 4, 5, 16]
     tasks = []
     for p in ps:
         w = 2 * (p + 5)
-        nds = sorted(set([1, 2, 3, w - 1, w, w + 2] + ([w + 1, w + 3, w + 4] if tier == 'thorough' else [])))
+        nds = sorted(set([1, 2, 3, 4, 5, w - 3, w - 2, w - 1, w, w + 2, w + 4]))
         if tier == 'thorough':
             nds = sorted(set(list(range(1, w + 5))))
         for nd in nds:
             if nd > w and nd % 2 == 1:
                 continue            # known finding (a): parity defect region, excluded (its witness is replayed below)
-            for scale in (range(-2, 3) if tier == 'quick' else range(-7, 8)):
+            for scale in (range(-3, 4) if tier == 'quick' else range(-7, 8)):
                 for mode in MODES:
                     if tier == 'quick' and (nd + scale + MODES.index(mode)) % 2 and nd not in (1, w):
                         continue
